@@ -8,6 +8,7 @@ open HB (HBeq Kn)
 def buildRec : Pc → Option Nat
   | .regAlloc _ r | .regCons _ r | .pushStore _ r _ | .pushCas _ r _ => some r
   | .eCons _ _ z | .eZh _ z => some z
+  | .eMark _ _ z | .eBack _ _ z | .eNext _ _ _ z | .eUnl _ _ _ _ z | .eFix _ _ _ _ z => some z
   | _ => none
 
 theorem buildRec_priv {p : Pc} {m : Nat} (h : buildRec p = some m) : privRec (BView p) = some m := by
